@@ -372,6 +372,17 @@ func runC08(r *mc.Run) {
 			}
 		}
 	}
+	// 4b. both header minima together (each is its own expectation; pairs whose sum, difference or bytes coincide)
+	{
+		set := []uint16{0, 1, 2, 0x00ff, 0x0100, 0x0208, 0x0209, 0x0d07, 0x0d08, 0x7fff, 0x8000, 0x8001, 25536, 40000, 0xfffe, 0xffff}
+		for _, a := range set {
+			for _, b := range set {
+				o := &validate.Options{}
+				o.HeaderOptions.MinimumQeSvn, o.HeaderOptions.MinimumPceSvn = a, b
+				add(fmt.Sprintf("svn/min-qe=%#x,min-pce=%#x", a, b), raw0, o)
+			}
+		}
+	}
 	// 5. minimum TEE TCB SVN
 	svn := raw0[48 : 48+16]
 	mt := func(id string, raw []byte, v []byte) {
